@@ -2,7 +2,13 @@
 
 package transport
 
-import "io"
+import (
+	"context"
+	"io"
+	"time"
+
+	"go.uber.org/zap"
+)
 
 // Exported shims for the verification harness (/verif). Add-only, compiled
 // only with -tags verif.
@@ -10,3 +16,8 @@ import "io"
 func VerifCopyMsgWithLenHdr(m []byte) (*[]byte, error) { return copyMsgWithLenHdr(m) }
 func VerifCopyMsg(m []byte) *[]byte                    { return copyMsg(m) }
 func VerifReadMsgUdp(r io.Reader) (*[]byte, error)     { return readMsgUdp(r) }
+
+// VerifNewLazyDnsConn gives the harness a connection that is still dialing.
+func VerifNewLazyDnsConn(dial func(ctx context.Context) (DnsConn, error), dialTimeout time.Duration, maxConcurrentQueryWhileDialing int) DnsConn {
+	return newLazyDnsConn(dial, dialTimeout, maxConcurrentQueryWhileDialing, zap.NewNop())
+}
